@@ -442,8 +442,16 @@ def _groupby_max(ctx, f):
               f"ascending={show(asc)}, keep={show(keep)} keeps the "
               "minimum of each group", node=rets[0][0])
     dd = chain[2][1]
-    ok_dd = bool(dd) and tkey(dd[0], 100) == tkey(by[2], 100) if \
-        ends_with_max else False
+    def as_sequence(t):
+        """list(list(x)) / tuple(x) / [*x]: the same column names in the
+        same order as x"""
+        while t[0] == "call" and t[1] in ("builtins.list",
+                                          "builtins.tuple") and \
+                len(t[2]) == 1 and not t[3]:
+            t = t[2][0]
+        return t
+    ok_dd = bool(dd) and tkey(as_sequence(dd[0])) == tkey(
+        as_sequence(by[2])) if ends_with_max else False
     ctx.check(ok_dd, "C15b-one-row-per-group", f,
               "duplicates are dropped on exactly the group columns",
               f"drop_duplicates({[show(d, 60) for d in dd]})",
